@@ -7,7 +7,7 @@ import vlib
 RULE = ("(schema, operation, variables) triples: input type graphs (built-in and custom scalars, Upload, enums with "
         "@inaccessible values, input objects with required/optional/default fields, recursive and @oneOf input objects, "
         "lists of lists, non-null at every level; 1-4 case groups per schema), an operation declaring 1-3 variables "
-        "(with and without defaults, sometimes named like the variables mapper's generated names), variables JSON derived "
+        "(with and without defaults -- full, null, or needing list coercion at some depth --, sometimes named like the variables mapper's generated names), variables JSON derived "
         "from the declared types and then mutated (null / absent at some depth, unknown key, dropped field, wrong JSON kind, "
         "1.5 / 1e100 / 2147483648 for Int, fractional ID, single value for list, extra nesting, object for list, null "
         "element, oneOf with 0/2 keys or null, unknown / inaccessible enum value, JSON text inside strings) plus a "
